@@ -370,6 +370,8 @@ static std::vector<Config> make_configs(bool T) {
         }
         add(fmt("RLS<real>(%d)", len), 2, 1,
             mk<AR, RlsFilterR>([=] { return RlsFilterR(len, 0.98, 10.0); }, [](RlsFilterR& f) { return VF_TRY(f, (uint64_t)(mix(HS(o._u), mix(HS(o._w), HS(o._p)))), (uint64_t)0); }));
+        add(fmt("RLS<real>(%d,defaults)", len), 2, 1,
+            mk<AR, RlsFilterR>([=] { return RlsFilterR(len); }, [](RlsFilterR& f) { return VF_TRY(f, (uint64_t)(mix(HS(o._u), mix(HS(o._w), HS(o._p)))), (uint64_t)0); }));
         add(fmt("RLS<cmplx>(%d)", len), 4, 1,
             mk<AC, RlsFilterC>([=] { return RlsFilterC(len, 0.95, 1.0); }, [](RlsFilterC& f) { return VF_TRY(f, (uint64_t)(mix(HS(o._u), mix(HS(o._w), HS(o._p)))), (uint64_t)0); }));
     }
@@ -653,6 +655,48 @@ int main(int argc, char** argv) {
                     }
                     ctx.worst("long: |delta|/tol", worst);
                 }
+            }
+        }
+        // ---------------- mode pause: dense signal, a long stretch of exact digital silence, dense signal again (adaptive filters
+        // without excitation, smoothers released to the floor, holds expired) - with frame boundaries before, inside and after the pause
+        if (ctx.take("frame.pause", P().kv("config", c.name))) {
+            const int A = std::max(1, 300 / c.granule), Z = std::max(1, 1200 / c.granule), GL = 2 * A + Z;
+            auto stream = make_stream(c, GL, 0);
+            for (long long i = (long long)A * c.granule; i < (long long)(A + Z) * c.granule; ++i)
+                for (int k = 0; k < c.width; ++k) stream[(size_t)i * c.width + k] = 0.0;
+            RunOut ref = run_frames(c, stream, {GL}, nullptr);
+            if (!ref.err.empty()) {
+                ctx.fail("one-call", "the one-call run threw: " + ref.err, "processes the whole stream");
+            } else {
+                ctx.nontrivial();
+                std::vector<std::vector<int>> framings;
+                framings.push_back({A, Z, A});
+                for (int cut : {A + Z / 24, A + Z / 6, A + Z / 3, A + Z / 2, A + (3 * Z) / 4, A + Z - 1, A + Z + 1})
+                    if (cut > 0 && cut < GL) framings.push_back({cut, GL - cut});
+                {
+                    std::vector<int> f;
+                    const int u = std::max(1, 100 / c.granule);
+                    for (int done = 0; done < GL; done += u) f.push_back(std::min(u, GL - done));
+                    framings.push_back(f);
+                }
+                double worst = 0;
+                bool bitid = true;
+                int reported = 0;
+                for (size_t fi = 0; fi < framings.size(); ++fi) {
+                    RunOut r = run_frames(c, stream, framings[fi], nullptr);
+                    ++ctx.traces;
+                    ++ctx.evaluations;
+                    ++ctx.checks["frame.pause"].evals;
+                    ctx.transitions += framings[fi].size();
+                    std::string e = r.err.empty() ? cmp(ref.out, r.out, worst, bitid) : ("threw: " + r.err);
+                    if (!e.empty() && reported < 2) {
+                        ++reported;
+                        ctx.fail(c.name.substr(0, c.name.find('(')).c_str(),
+                                 fmt("dense %d / silent %d / dense %d granules, framing #%zu (first frame %d granules): %s", A, Z, A, fi, framings[fi][0], e.c_str()),
+                                 "same concatenated output as one call on the whole stream", P().kv("framing", (int)fi).kv("mode", "pause"));
+                    }
+                }
+                ctx.worst("pause: |delta|/tol", worst);
             }
         }
         // ---------------- mode copy: copies of a processor.  The statement does not say whether a copy is an independent value or a
